@@ -116,10 +116,15 @@ def duration_gate(chk, F):
 def checked(chk, F):
     G = cg.get(F)
     for op, callee in (("Add", "checked_add_signed"), ("Sub", "checked_sub_signed")):
-        fn = F.find(CORE, "<&'a runtime::value::Value as core::ops::arith::%s<&'b runtime::value::Value>>::%s" % (op, op.lower()), exact=True)
+        # (normalised: `+` and `-` may share a helper that is told the direction; what counts is what can run from this operator)
+        fn = F.find(CORE, "<&'a runtime::value::Value as core::ops::arith::%s<&'b runtime::value::Value>>::%s" % (op, op.lower()), exact=True,
+                    inline=True, keep=("Option::<T>", "Result::<T, E>", "Iterator", "bool>::then", "to_duration", "from_duration"))
         fk = "rink_core::Value::" + op.lower()
-        sites = [(bb, t) for bb, t in fn.calls() if "callee" in t and t["callee"]["path"].endswith("DateTime::<Tz>::" + callee)]
-        chk.decide(len(sites) == 2, "checked-arithmetic", fk, "uses-" + callee, fn.where(),
+        live = fn.reachable(0)
+        sites = [(bb, t) for bb, t in fn.calls() if "callee" in t and t["callee"]["path"].endswith("DateTime::<Tz>::" + callee) and bb in live]
+        other = "checked_sub_signed" if callee == "checked_add_signed" else "checked_add_signed"
+        wrong = [bb for bb, t in fn.calls() if "callee" in t and t["callee"]["path"].endswith("DateTime::<Tz>::" + other) and bb in live]
+        chk.decide(len(sites) == 2 and not wrong, "checked-arithmetic", fk, "uses-" + callee, fn.where(),
                    "instant %s duration uses %s for both Fixed and Timezone instants" % ("+" if op == "Add" else "-", callee),
                    "expected two %s call sites (Fixed, Timezone), found %d" % (callee, len(sites)))
         for bb, t in sites:
